@@ -50,6 +50,8 @@ pub struct LinkInner {
     pub over_budget: bool,
     /// virtual instant of the last frame written and the longest pause between two writes so far
     pub last_write: Option<tokio::time::Instant>,
+    /// virtual instant at which the first frame was silently dropped (the silent stall began)
+    pub first_drop: Option<tokio::time::Instant>,
     pub max_gap: std::time::Duration,
 }
 
@@ -165,6 +167,9 @@ impl Link {
         let n = l.log.len();
         l.drop_after = Some(n + k);
     }
+    pub fn silence_began(&self) -> bool {
+        self.0.lock().unwrap().first_drop.is_some()
+    }
     pub fn silence_after_now(&self) {
         let mut l = self.0.lock().unwrap();
         let n = l.log.len();
@@ -209,6 +214,9 @@ impl Sink<Bytes> for LinkSink {
         l.last_write = Some(now);
         if let Some(n) = l.drop_after {
             if l.log.len() > n {
+                if l.first_drop.is_none() {
+                    l.first_drop = Some(now);
+                }
                 return Ok(());
             }
         }
